@@ -219,3 +219,24 @@ def mutated_system(ia, ib, fld, how, di):
     arr = UnitArray([1.0, 2.0], Units(SYS["G"], dim))
     ok = ok and list(arr.convert(us).value) == list(arr.convert(fresh).value)
     return ok
+
+
+_MIXED = [("mM.mL", 1e-3 * AVOGADRO / 1e-3 * 1e-6, (0, 0, 1)), ("µM.µm/s", 1e-6 * AVOGADRO / 1e-3 * 1e-6, (-2, -1, 1)), ("M-1.cm-1", 1.0 / (AVOGADRO / 1e-3) / 1e-2, (2, 0, -1)),
+          ("m/s/min", 1.0 / 60.0, (1, -2, 0)), ("mol.molecule-1", AVOGADRO, (0, 0, 0)), ("L.µm-3", 1e-3 / 1e-18, (0, 0, 0)), ("nM.fL", 1e-9 * AVOGADRO / 1e-3 * 1e-18, (0, 0, 1)),
+          ("h.s-1", 3600.0, (0, 0, 0)), ("mm2.µm", 1e-6 * 1e-6, (3, 0, 0))]
+
+
+def mixed_symbols(k, form):
+    """unit TEXT in which two symbols disagree on the unit of one base (mM next to mL is fine: both dm3; mM next to µm is not
+    expressible in one units system): the text is either refused, or - if it is accepted - the quantity has the SI value its
+    symbols define (each symbol keeps its own SI meaning); never a value in which one symbol silently took another one's unit"""
+    text, si_per_unit, d = _MIXED[k]
+    try:
+        v = UnitValue(2.0, text) if form == 0 else (UnitValue("2 " + text) if form == 1 else UnitValue(2.0, Units(SYS["A"], UnitsDimensions(*d))).convert(text))
+    except Exception:
+        return True
+    if form == 2:
+        want = 2.0 * si_factor(SYS["A"], UnitsDimensions(*d))
+    else:
+        want = 2.0 * si_per_unit
+    return dims(v) == tuple(d) and abs(si(v) - want) <= 1e-9 * abs(want)
